@@ -335,7 +335,7 @@ func (r *runner) execute(mode string, seed int64, pick picker) (ex execution) {
 	if ex.Steps >= maxSteps {
 		ex.Outcome, ex.Detail = "stuck", "step limit"
 	}
-	s.Disable()
+	s.Finish()
 	for _, e := range s.Log {
 		switch e.Kind {
 		case "call", "ret":
